@@ -2,5 +2,7 @@
 let table : (string * (Model.n list -> Model.n list)) list = [
   ("inflights", Model.run_inflights);
   ("quorum", Model.run_quorum);
+  ("memstorage", Model.run_memstorage);
+  ("node", Model.run_node);
   ("raftlog", Model.run_raftlog);
 ]
